@@ -31,6 +31,11 @@ static SF_PRIVATE g_w, g_r ;
 static SF_CUES g_cues ;
 static SF_INSTRUMENT g_inst ;
 static int nd_cue [12], nd_ins [8] ;
+#ifndef STR_MAX
+#define STR_MAX 4
+#endif
+static signed char nd_txt [2 * (STR_MAX + 1)] ;
+static char g_txt [2][STR_MAX + 1] ;
 #endif
 static unsigned char g_hw [HDRLEN], g_hr [HDRLEN] ;
 
@@ -111,6 +116,25 @@ main (void)
 #if WITH_META & 2
 		rc = sf_command ((SNDFILE *) w, SFC_SET_INSTRUMENT, &g_inst, sizeof (g_inst)) ;
 		VASSERT (rc == SF_TRUE, "instrument accepted before any audio is written") ;
+#endif
+#if WITH_META & 4
+		/* text strings: two kinds with symbolic contents (length 0..STR_MAX, printable bytes) */
+		ND_FILL (nd_txt, 2 * (STR_MAX + 1), schar) ;
+		for (mk = 0 ; mk < 2 ; mk++)
+		{	int c, ended = 0 ;
+			for (c = 0 ; c < STR_MAX ; c++)
+			{	signed char ch = nd_txt [mk * (STR_MAX + 1) + c] ;
+				if (ch == 0) ended = 1 ;
+				VASSUME (ended ? ch == 0 : (ch >= 0x20 && ch < 0x7F)) ;
+				g_txt [mk][c] = ch ;
+				} ;
+			g_txt [mk][STR_MAX] = 0 ;
+			VASSUME (g_txt [mk][0] != 0) ;		/* (an empty string is "not set") */
+			} ;
+		rc = sf_set_string ((SNDFILE *) w, SF_STR_TITLE, g_txt [0]) ;
+		VASSERT (rc == 0, "title accepted before any audio is written") ;
+		rc = sf_set_string ((SNDFILE *) w, SF_STR_ARTIST, g_txt [1]) ;
+		VASSERT (rc == 0, "artist accepted before any audio is written") ;
 #endif
 		/* what the first write call does: (re)write the header, now with the metadata */
 		rc = w->write_header (w, SF_FALSE) ;
@@ -194,6 +218,19 @@ main (void)
 		VASSERT (r->instrument->basenote == g_inst.basenote, "instrument survives: basenote") ;	/* (the WAV smpl chunk has no gain field) */
 		VASSERT (r->instrument->loop_count == 1, "instrument survives: loop count") ;
 		VASSERT (r->instrument->loops [0].start == g_inst.loops [0].start && r->instrument->loops [0].count == g_inst.loops [0].count, "loop survives: start, count") ;
+#endif
+#if WITH_META & 4
+		{	const char *t = sf_get_string ((SNDFILE *) r, SF_STR_TITLE), *a = sf_get_string ((SNDFILE *) r, SF_STR_ARTIST) ;
+			VASSERT (t != NULL && a != NULL, "both strings are present after re-open") ;
+			for (mk = 0 ; mk <= STR_MAX ; mk++)
+			{	VASSERT (t [mk] == g_txt [0][mk], "title survives unchanged") ;
+				if (g_txt [0][mk] == 0) break ;
+				} ;
+			for (mk = 0 ; mk <= STR_MAX ; mk++)
+			{	VASSERT (a [mk] == g_txt [1][mk], "artist survives unchanged") ;
+				if (g_txt [1][mk] == 0) break ;
+				} ;
+		}
 #endif
 		(void) mk ;
 	}
